@@ -16,6 +16,7 @@ negative") => violation; ZeroDivisionError, IndexError, KeyError, AssertionError
 ValueError of plain Python semantics, SystemExit => allowed.
 """
 import itertools
+import glob
 import json
 import os
 import re
@@ -238,6 +239,8 @@ def classify(r):
 def run(chk):
     work = os.path.join(vlib.BUILD, "c02")
     os.makedirs(work, exist_ok=True)
+    for f in glob.glob(os.path.join(vlib.REPLAYS, "C02", f"{chk.tier}-*.json")):
+        os.remove(f)  # replays of an earlier run
     vlib.stage_erg_path()
     progs = []
     seen = set()
